@@ -1061,7 +1061,12 @@ func opUnStake(pc *uint64, interpreter *EVMInterpreter, callContext *callCtx) ([
 				refundInfo.AddRefundInfo(addr, remain)
 			}
 
-			refundInfo.AddRefundInfo(source.Bytes(), money)
+			// only whole tokens leave the stake (realMoney): never schedule more than was released
+			granted := money
+			if granted.Cmp(realMoney) > 0 {
+				granted = realMoney
+			}
+			refundInfo.AddRefundInfo(source.Bytes(), granted)
 
 			data := make(map[uint64]types.RefundInfoList)
 			data[refundHeight] = refundInfo
